@@ -141,13 +141,25 @@ func specialBits(m uint32) os.FileMode {
 	return out
 }
 
+var sockSeq int64
+
+// bindUnix creates a unix socket file at p. sun_path is limited to 108
+// bytes, so the socket is bound under a short name in the scratch directory
+// and then renamed into place.
 func bindUnix(fd int, p string) error {
-	dir, base := filepath.Split(p)
-	// chdir-free: use /proc/self/fd trick is overkill; sun_path limit is 108,
-	// scratch paths are short enough in practice, fall back to error otherwise.
-	_ = dir
-	_ = base
-	return syscall.Bind(fd, &syscall.SockaddrUnix{Name: p})
+	if len(p) < 100 {
+		return syscall.Bind(fd, &syscall.SockaddrUnix{Name: p})
+	}
+	base := os.Getenv("VERIF_SCRATCH")
+	if base == "" {
+		base = os.TempDir()
+	}
+	sockSeq++
+	short := filepath.Join(base, fmt.Sprintf(".s%d-%d", os.Getpid(), sockSeq))
+	if err := syscall.Bind(fd, &syscall.SockaddrUnix{Name: short}); err != nil {
+		return err
+	}
+	return os.Rename(short, p)
 }
 
 func utimesNanoAtNoFollow(path string, ts []syscall.Timespec) error {
